@@ -1,7 +1,9 @@
 #!/usr/bin/env python3
-"""Apply every seeded change to /repo in turn, run the quick check of its property, revert, and
+"""Apply every seeded change in turn, run the quick check of its property, revert, and
 record the outcome in seeded/<name>/meta.json (detected_by) and seeded/RESULTS.md.
-Never leaves /repo modified."""
+Default: applied to /repo itself (git apply / git checkout -- .), never leaves /repo modified.
+With SEED_WT=1 a scratch worktree of /repo HEAD under /tmp is used instead (PYTHONPATH / PDB2PQR_REPO point
+the checks at it), so that /repo stays untouched while other runs are reading it; it is removed afterwards."""
 import json
 import os
 import re
@@ -12,29 +14,35 @@ V = "/verif"
 names = sorted(d for d in os.listdir(f"{V}/seeded") if os.path.isdir(f"{V}/seeded/{d}"))
 only = sys.argv[1:]
 rows = []
-assert not subprocess.run(["git", "-C", "/repo", "status", "--porcelain"], capture_output=True, text=True).stdout.strip(), "/repo not clean"
+REPO = "/repo"
+ENV = dict(os.environ)
+if os.environ.get("SEED_WT"):
+    REPO = f"/tmp/seedwt-{os.getpid()}"
+    subprocess.run(["git", "-C", "/repo", "worktree", "add", "-q", "--detach", REPO, "HEAD"], check=True)
+    ENV.update(PYTHONPATH=REPO, PDB2PQR_REPO=REPO)
+assert not subprocess.run(["git", "-C", REPO, "status", "--porcelain"], capture_output=True, text=True).stdout.strip(), "/repo not clean"
 for n in names:
     if only and not any(o in n for o in only):
         continue
     d = f"{V}/seeded/{n}"
     meta = json.load(open(f"{d}/meta.json"))
     pid = meta["property"]
-    ok = subprocess.run(["git", "-C", "/repo", "apply", f"{d}/patch.diff"], capture_output=True).returncode == 0
+    ok = subprocess.run(["git", "-C", REPO, "apply", f"{d}/patch.diff"], capture_output=True).returncode == 0
     if not ok:
-        ok = subprocess.run(["git", "-C", "/repo", "apply", "--3way", f"{d}/patch.diff"], capture_output=True).returncode == 0
-        subprocess.run(["git", "-C", "/repo", "reset", "-q"])
+        ok = subprocess.run(["git", "-C", REPO, "apply", "--3way", f"{d}/patch.diff"], capture_output=True).returncode == 0
+        subprocess.run(["git", "-C", REPO, "reset", "-q"])
     if not ok:
-        subprocess.run(["git", "-C", "/repo", "checkout", "--", "."])
+        subprocess.run(["git", "-C", REPO, "checkout", "--", "."])
         rows.append((n, pid, "patch does not apply", ""))
         continue
     try:
-        r = subprocess.run([f"{V}/vcheck", pid, "--tier", "quick"], capture_output=True, text=True, cwd=V, timeout=3000)
+        r = subprocess.run([f"{V}/vcheck", pid, "--tier", "quick"], capture_output=True, text=True, cwd=V, timeout=3000, env=ENV)
         out = r.stdout
         rc = r.returncode
     except subprocess.TimeoutExpired:
         out, rc = "", 124
     finally:
-        subprocess.run(["git", "-C", "/repo", "checkout", "--", "."])
+        subprocess.run(["git", "-C", REPO, "checkout", "--", "."])
     labels = sorted(set(re.findall(r"label=(\S+)", out)))
     obs = sorted(set(re.findall(r"obligation=(\S+)", out)))[:3]
     verdict = {0: "MISSED", 1: "DETECTED", 3: "INCONCLUSIVE", 124: "TIMEOUT"}.get(rc, f"exit {rc}")
@@ -45,8 +53,17 @@ for n in names:
     rows.append((n, pid, verdict, ", ".join(labels)[:120]))
     print(n, verdict, labels[:3], flush=True)
 subprocess.run(["git", "-C", V, "checkout", "--", "evidence"])
+if REPO != "/repo":
+    subprocess.run(["git", "-C", "/repo", "worktree", "remove", "--force", REPO])
+old = {}
+if only and os.path.exists(f"{V}/seeded/RESULTS.md"):
+    for line in open(f"{V}/seeded/RESULTS.md").read().splitlines()[2:]:
+        c = [x.strip() for x in line.strip().strip("|").split(" | ")]
+        if len(c) == 4:
+            old[c[0]] = tuple(c)
+old.update({r[0]: r for r in rows})
 with open(f"{V}/seeded/RESULTS.md", "w") as f:
     f.write("| seeded change | property | quick check | violated labels |\n|---|---|---|---|\n")
-    for r in rows:
-        f.write("| " + " | ".join(r) + " |\n")
+    for k in sorted(old):
+        f.write("| " + " | ".join(old[k]) + " |\n")
 print("done")
